@@ -15,7 +15,7 @@ func init() {
 		Rule: "case = source sketch (either variant, any non-collapsing store, both signs, zeros, unit or dyadic weights, values well inside both mappings' ranges after scaling) converted with ChangeMapping to a target mapping over all 9 ordered kind pairs x alpha pairs (coarser, finer, equal) into any store kind, scale in [1e-3,1e3] incl. 1, powers of two, random and bin-aligned factors LowerBound'(j)/LowerBound(i); " +
 			"oracle: result carries the requested mapping; source observation unchanged; zero weight bitwise kept; |W'-W| <= 1e-10 W; no bin of weight <= 0 and Min/MaxIndex are the extreme positive bins; per side and for every target-bin boundary t the interval transport (Hall) condition: weight of result bins entirely below t lies between the weight of source bins ending at or below t and the weight of source bins starting below t (up to slivers); " +
 			"every quantile y satisfies y/(s*Value(i)) in [(1-a2)/(1+a1),(1+a2)/(1-a1)] for a source bin i whose cumulative interval is within 1 of q(W-1); identity conversion gives an equal, independent copy; exact statistics: count unchanged, min/max = fl(extreme*s), sum within the rounding bound. Non-trivial = bin-aligned factor, different kinds, or both signs; distinct = hash of (mappings, scale, items).",
-		Cases:     core.Scale(8000, 250000),
+		Cases:     core.Scale(20000, 500000),
 		Mandatory: []string{"oracle.transport_checks", "oracle.quantile_checks", "oracle.source_unchanged", "oracle.nonpositive_bin_checks", "scale.bin_aligned", "scale.one", "identity.cases", "exact.rescale_checks", "pair.log->cub", "pair.cub->lin", "pair.lin->log", "target.collapsing"},
 		Assumptions: []string{
 			"boundary classification tolerance 1e-9 relative, weight slivers 1e-9*W: a defect moving less than that is invisible",
